@@ -181,7 +181,12 @@ pub fn run_scheduled(fam: &Fam, cfg: &PCfg) -> PRun {
         fn go<D: DecisionDiagram<State = i64> + Default, C: Cache<State = i64> + Default + Send + Sync>(fam: &'static Fam, cfg: &PCfg, w: &(dyn WidthHeuristic<i64> + Send + Sync), dom: &(dyn DominanceChecker<State = i64> + Send + Sync), cutoff: &CountCutoff, fringe: &mut PTapeFringe) -> Option<(bool, Option<isize>, isize, isize, usize, Option<Vec<Decision>>)> {
             catch(|| {
                 let mut s = ParallelSolver::<i64, PTapeDD<D>, PTapeCache<C>>::custom(fam, fam, fam, w, dom, cutoff, fringe, cfg.built_with).with_nb_threads(cfg.threads);
-                if let Some((v, p)) = &cfg.s.primal { s.set_primal(*v, p.iter().map(|(a, b)| Decision { variable: Variable(*a), value: *b }).collect()); }
+                if let Some((v, p)) = &cfg.s.primal {
+                s.set_primal(*v, p.iter().map(|(a, b)| Decision { variable: Variable(*a), value: *b }).collect());
+                // an equal and a smaller primal afterwards must not replace the incumbent (marker solutions)
+                s.set_primal(*v, vec![Decision { variable: Variable(0), value: 77 }]);
+                s.set_primal(*v - 1, vec![Decision { variable: Variable(0), value: 78 }]);
+            }
                 let c = s.maximize();
                 (c.is_exact, c.best_value, s.best_lower_bound(), s.best_upper_bound(), s.explored(), s.best_solution())
             })
